@@ -107,6 +107,7 @@ theorem entry_plain (cfg : Cfg) (hp : Plain cfg) (k : Kind) (s : St) (d f t0 : N
   have hnd : ¬ (d ≥ cfg.depthOpt) := by omega
   cases k <;>
   simp [entry, entryFilterCheck, checkRstack, hidx, hp.fast, hp.optIn, hp.locIn, hp.trig,
+    saveFilt, matchFilt, earlyOut, trigFilt, depthLimit, trigEnabled,
     entryFilterRecord, h3, h4, h5, h6, h7, h8, h9, h10, hnd, plainFrame]
   all_goals (constructor <;> simp_all [NoSkip])
 
